@@ -368,10 +368,36 @@ def _round2_rules(ctx):
     MANV = 'mithril_cardano_node_internal_database::entities::ancillary_files_manifest::AncillaryFilesManifest::verify_data'
     mv = ctx.try_fn('f', MANV)
     if mv is not None:
-        ctx.guard_gate('f', mv, 'every manifest entry: computed hash == listed hash',
-                       lambda g: g.op in ('Eq', 'Ne') and (has(g.a_orig | g.b_orig, 'call:*compute_file_hash') or has(g.a_orig | g.b_orig, 'call:*::finalize') or
-                                                             has(g.a_orig | g.b_orig, 'call:*hex::encode*')),
-                       {'eq'}, key='manifest:every-entry-hashed', per_item=True)
+        from engine import loop_body_entry, CMP_REL, ALL3
+        pred = (lambda g: g.op in ('Eq', 'Ne') and (has(g.a_orig | g.b_orig, 'call:*compute_file_hash') or has(g.a_orig | g.b_orig, 'call:*::finalize') or
+                                                      has(g.a_orig | g.b_orig, 'call:*hex::encode*')))
+        lv = mv.logic()
+        body = lv.body
+        removed, anchors = set(), []
+        for g in find_guards(body):
+            if pred(g):
+                rel_t = CMP_REL[g.op]
+                removed |= g.true_edges if rel_t <= {'eq'} else g.false_edges
+                anchors.append(g.bb)
+        # ... or the comparison sits in a helper awaited for each entry, whose own success requires it
+        for c in body.calls():
+            for n in c.names():
+                for h in ws.by_name.get(n, []):
+                    if h.unit.crate == getattr(mv, '_orig', mv).unit.crate and h.kind in ('fn', 'assoc_fn') and h.root() is not getattr(mv, '_orig', mv).root():
+                        try:
+                            est = ctx.quiet_gate(ctx.view(h), pred, {'eq'})[0]
+                        except Exception:  # noqa
+                            est = False
+                        if est:
+                            removed |= track_result(body, c.dest[0], +1).success_edges
+                            anchors.append(c.bb)
+        starts = {loop_body_entry(body, bb) for bb in anchors} - {None}
+        inst = 'AncillaryFilesManifest::verify_data: every manifest entry: computed hash == listed hash'
+        if anchors and starts and removed and not success_reachable(body, removed, 'ok', starts=sorted(starts)):
+            R.ok('f', 'R6', inst, '%d comparison / helper site(s) in the loop over the manifest' % len(anchors), mv.loc())
+        else:
+            R.violation('f', 'R6', inst, 'manifest:every-entry-hashed', 'comparison sites %d (in a loop: %d): an entry can be passed over without its hash being compared' % (
+                len(anchors), len(starts)), mv.loc())
 
 
 _run_c19 = run
